@@ -284,12 +284,14 @@ package security
 
 //@ func (*Authenticator).exchangeKey (a, ctx, negotiation) (err)
 //@   props C13 C03
+//@   nocall [C04] digests_frozen_only_at_key_installation: Stream).FinalizeDigests
 //@   requires strm: a.stream != nil
 //@   ensures no_key_installed: a.stream.gcm == old(a.stream.gcm)
 //@   preserves security.SecurityConfig security.Authenticator security.SecurityNegotiation elems$security.AuthMethod G$authOK
 
 //@ func (*Authenticator).handleClientAuthentication (a, ctx, negotiation) (err)
 //@   props C03
+//@   nocall [C04] digests_frozen_only_at_key_installation: Stream).FinalizeDigests
 //@   requires cfg: a.config != nil && negotiation.ServerConfig != nil && negotiation.ClientConfig != nil && a.stream != nil
 //@   preserves security.SecurityConfig security.Authenticator
 //@   loop 5 invariant none_yet: authOKCount == old(authOKCount) && a.stream != nil
@@ -304,6 +306,7 @@ package security
 
 //@ func (*Authenticator).handleServerAuthentication (a, ctx, negotiation) (err)
 //@   props C03
+//@   nocall [C04] digests_frozen_only_at_key_installation: Stream).FinalizeDigests
 //@   requires cfg: a.config != nil && a.stream != nil
 //@   preserves security.SecurityConfig security.Authenticator elems$security.AuthMethod
 //@   loop 1 invariant none_yet: authOKCount == old(authOKCount) && negotiation.Authentication && a.stream != nil
@@ -382,6 +385,7 @@ package security
 //@ func (*Authenticator).performFullAuthentication (a, ctx, cache) (result, err)
 //@   props C03 C10
 //@   requires given: a.config != nil && a.stream != nil && a.stream.gcm == nil && cache != nil
+//@   nocall [C04] digests_frozen_only_at_key_installation: Stream).FinalizeDigests
 //@   assert after call Authenticator).setupStreamEncryption #1 enc_decided: [C03] callres == nil ==> (a.config.Encryption == "REQUIRED" ==> sealingOn(a.stream)) && negotiation.Encryption == sealingOn(a.stream) && (sealingOn(a.stream) || a.stream.gcm == nil)
 //@   ensures required_auth_ran: [C03] err == nil && a.config.Authentication == "REQUIRED" ==> authOKCount == old(authOKCount) + 1 && result.Authentication
 //@   ensures required_enc_keyed: [C03] err == nil && a.config.Encryption == "REQUIRED" ==> a.stream.gcm != nil
@@ -446,6 +450,7 @@ package security
 //@   requires given: a.config != nil && a.stream != nil && a.stream.gcm == nil && msg != nil
 //@   assert before call Authenticator).sendNegotiationFailureResponse #1 explicit_denial: [C10] true
 //@   assert after call Authenticator).setupStreamEncryption #1 enc_decided: [C03] callres == nil ==> (negotiation.ServerConfig.Encryption == "REQUIRED" ==> sealingOn(a.stream)) && negotiation.Encryption == sealingOn(a.stream) && (sealingOn(a.stream) || a.stream.gcm == nil)
+//@   nocall [C04] digests_frozen_only_at_key_installation: Stream).FinalizeDigests
 //@   assert after call Authenticator).handleServerAuthentication #1 auth_decided: [C03] callres == nil && negotiation.ServerConfig.Authentication == "REQUIRED" ==> negotiation.Authentication && authOKCount == old(authOKCount) + 1
 //@   ensures full_reports_real: [C03] err == nil && !result.SessionResumed ==> result.Encryption == (a.stream.gcm != nil)
 //@   ensures resumed_is_keyed: [C06] err == nil && result.SessionResumed ==> a.stream.gcm != nil && result.Encryption
